@@ -29,6 +29,9 @@ func runC19(ctx *Ctx) {
 		{"pogs.(*inserter).insertField", "capnp.(Struct).SetNewText", 1, []string{"p1", "uint16(Offset(Slot(p2)))", "<str>"},
 			[]string{"!isEmptyValue(DefaultValue(Slot(p2))#0)", "0:int == Len(p3)", "12:schema.Type_Which == Which(Type(Slot(p2))#0)"},
 			"an empty Go string over a non-empty schema default is stored as an allocated empty text (a null pointer would read back as the default)"},
+		{"pogs.(*extracter).extractField", "capnp.(Ptr).TextBytes", 1, []string{"Ptr(p2, uint16(Offset(Slot(p3))))#0"},
+			[]string{"IsValid(Ptr(p2, uint16(Offset(Slot(p3))))#0)", "12:schema.Type_Which == Which(Type(Slot(p3))#0)"},
+			"a text field takes the stored bytes whenever the pointer is set (an explicitly empty text is not the default); the schema default is used only for a null pointer"},
 	})
 	ruleEmbedQueueFIFO(ctx, "C19-R6")
 	ruleInsertGuard(ctx, "C19-R2b")
